@@ -243,6 +243,41 @@ func (o *c03) Finish() {
 			}
 		}
 	}
+	// compact-bits sweep: every class of the encoding (exponents around the truncating range, the
+	// 256-bit boundary and the extremes x mantissas around each byte boundary x sign), each as a
+	// chain of two headers so that the cumulative work is derived from a stored parent as well
+	if env.Mine(0) {
+		k := 0
+		for _, exp := range []uint32{0, 1, 2, 3, 4, 29, 32, 33, 34, 35, 255} {
+			for _, mant := range []uint32{1, 0xff, 0x100, 0xffff, 0x10000, 0x7fffff} {
+				for _, sign := range []uint32{0, 0x00800000} {
+					bits := exp<<24 | sign | mant
+					prev := gen
+					for d := 0; d < 2; d++ {
+						k++
+						var mk core.Hash32
+						mk[0], mk[1], mk[2], mk[3] = 0xb1, byte(k), byte(k>>8), byte(d)
+						raw := core.RawHeader{Version: 1, Prev: prev, Merkle: mk, Time: 1600000000 + uint32(k), Bits: bits, Nonce: uint32(k)}
+						out, m := model.Add(-1, raw)
+						res := core.SafeAdd(rig.Svc.Chains, raw.Source())
+						o.rep.Executions++
+						o.rep.Evaluations++
+						o.rep.DistinctNontrivial++
+						if res.Code() != out.String() {
+							o.viol(nil, "product.add."+res.Code(), fmt.Sprintf("bits sweep header %+v answered %s, model %s: %v %s", raw, res.Code(), out, res.Err, firstLines(res.Panic, 8)), out.String(), res.Code())
+							break
+						}
+						if out != core.OutStored {
+							break
+						}
+						c.Seq = nil
+						checkReadsProduct(o, c, api, m, raw)
+						prev = raw.Hash()
+					}
+				}
+			}
+		}
+	}
 	// every product header once more after a restart
 	rig.CloseKeep()
 	r2 := core.OpenRig(rig.Path, core.RigOpts{ReInit: true})
